@@ -824,11 +824,11 @@ for _sfx in ('_w', '_b'):
                         note='composition of the four fragment contracts; spec functions uninterpreted (COMPOSE_UF)'))
 for _sfx in ('_w', '_b'):
     _pf = 'MoveGen_pseudoLegalCaptures_'
-    GROUPS.append(Group('pseudoLegalCaptures_pieces' + _sfx, 'h_pc_pieces' + _sfx, enforce=_pf + 'pieces' + _sfx, replace=_ATT + ('MoveGen_addMovesByMask', 'BitBoard_extractSquare'),
+    GROUPS.append(Group('pseudoLegalCaptures_pieces' + _sfx, 'h_pc_pieces' + _sfx, enforce=_pf + 'pieces' + _sfx, tier='thorough', replace=_ATT + ('MoveGen_addMovesByMask', 'BitBoard_extractSquare'),
                         loop_contracts=True, min_props=10, expect_loop_props=4, timeout=7200))
-    GROUPS.append(Group('pseudoLegalCaptures_kingpawns' + _sfx, 'h_pc_kingpawns' + _sfx, enforce=_pf + 'kingpawns' + _sfx,
+    GROUPS.append(Group('pseudoLegalCaptures_kingpawns' + _sfx, 'h_pc_kingpawns' + _sfx, enforce=_pf + 'kingpawns' + _sfx, tier='thorough',
                         replace=_ATT + ('MoveGen_addMovesByMask', 'MoveGen_addPawnDoubleMovesByMask', 'MoveGen_addPawnMovesByMask_w', 'MoveGen_addPawnMovesByMask_b'), min_props=10, timeout=7200))
-    GROUPS.append(Group('pseudoLegalCaptures_tiled' + _sfx, 'h_pc_tiled' + _sfx, enforce=_pf + 'tiled' + _sfx, defines=('COMPOSE_UF=1',),
+    GROUPS.append(Group('pseudoLegalCaptures_tiled' + _sfx, 'h_pc_tiled' + _sfx, enforce=_pf + 'tiled' + _sfx, tier='thorough', defines=('COMPOSE_UF=1',),
                         replace=('Position_occupiedBB', _pf + 'pieces' + _sfx, _pf + 'kingpawns' + _sfx), min_props=5, timeout=7200,
                         note='composition of the two fragment contracts; spec functions uninterpreted (COMPOSE_UF)'))
 GROUPS.append(Group('removeIllegal_head', 'h_ri_head', enforce='MoveGen_removeIllegal_head', replace=_ATT + ('MoveGen_inCheck', 'Position_occupiedBB', 'BitBoard_firstSquare'), min_props=5, timeout=1800))
@@ -838,14 +838,14 @@ for _n in ('ic', 'nic'):
 for _sfx in ('_w', '_b'):
     _pf = 'MoveGen_capturesAndChecks_'
     _PAWNH = ('MoveGen_addPawnDoubleMovesByMask', 'MoveGen_addPawnMovesByMask_w', 'MoveGen_addPawnMovesByMask_b')
-    GROUPS.append(Group('capturesAndChecks_head' + _sfx, 'h_cc_head' + _sfx, enforce=_pf + 'head' + _sfx, replace=_ATT + ('BitBoard_firstSquare',), min_props=5, timeout=7200))
-    GROUPS.append(Group('capturesAndChecks_sliders' + _sfx, 'h_cc_sliders' + _sfx, enforce=_pf + 'sliders' + _sfx, replace=_ATT + ('MoveGen_addMovesByMask', 'BitBoard_extractSquare'),
+    GROUPS.append(Group('capturesAndChecks_head' + _sfx, 'h_cc_head' + _sfx, enforce=_pf + 'head' + _sfx, tier='thorough', replace=_ATT + ('BitBoard_firstSquare',), min_props=5, timeout=7200))
+    GROUPS.append(Group('capturesAndChecks_sliders' + _sfx, 'h_cc_sliders' + _sfx, enforce=_pf + 'sliders' + _sfx, tier='thorough', replace=_ATT + ('MoveGen_addMovesByMask', 'BitBoard_extractSquare'),
                         loop_contracts=True, min_props=10, expect_loop_props=3, timeout=7200))
-    GROUPS.append(Group('capturesAndChecks_king' + _sfx, 'h_cc_king' + _sfx, enforce=_pf + 'king' + _sfx, replace=_ATT + ('MoveGen_addMovesByMask', 'MoveList_addMove', 'MoveGen_sqAttacked2', 'BitBoard_firstSquare'), min_props=10, timeout=7200))
-    GROUPS.append(Group('capturesAndChecks_knights' + _sfx, 'h_cc_knights' + _sfx, enforce=_pf + 'knights' + _sfx, replace=_ATT + ('MoveGen_addMovesByMask', 'BitBoard_extractSquare'),
+    GROUPS.append(Group('capturesAndChecks_king' + _sfx, 'h_cc_king' + _sfx, enforce=_pf + 'king' + _sfx, tier='thorough', replace=_ATT + ('MoveGen_addMovesByMask', 'MoveList_addMove', 'MoveGen_sqAttacked2', 'BitBoard_firstSquare'), min_props=10, timeout=7200))
+    GROUPS.append(Group('capturesAndChecks_knights' + _sfx, 'h_cc_knights' + _sfx, enforce=_pf + 'knights' + _sfx, tier='thorough', replace=_ATT + ('MoveGen_addMovesByMask', 'BitBoard_extractSquare'),
                         loop_contracts=True, min_props=10, expect_loop_props=1, timeout=7200))
-    GROUPS.append(Group('capturesAndChecks_pawns' + _sfx, 'h_cc_pawns' + _sfx, enforce=_pf + 'pawns' + _sfx, replace=_ATT + _PAWNH, min_props=10, timeout=7200))
-    GROUPS.append(Group('capturesAndChecks_tiled' + _sfx, 'h_cc_tiled' + _sfx, enforce=_pf + 'tiled' + _sfx, defines=('COMPOSE_UF=1',),
+    GROUPS.append(Group('capturesAndChecks_pawns' + _sfx, 'h_cc_pawns' + _sfx, enforce=_pf + 'pawns' + _sfx, tier='thorough', replace=_ATT + _PAWNH, min_props=10, timeout=7200))
+    GROUPS.append(Group('capturesAndChecks_tiled' + _sfx, 'h_cc_tiled' + _sfx, enforce=_pf + 'tiled' + _sfx, tier='thorough', defines=('COMPOSE_UF=1',),
                         replace=('Position_occupiedBB',) + tuple(_pf + x + _sfx for x in ('head', 'sliders', 'king', 'knights', 'pawns')), min_props=5, timeout=7200,
                         note='composition of the five fragment contracts; spec functions uninterpreted (COMPOSE_UF)'))
 GROUPS.append(Group('lemma_pl_own', 'h_lemma_pl_own', min_props=1))
@@ -864,8 +864,8 @@ for _sfx in ('_w', '_b'):
                         min_props=20, expect_loop_props=4, timeout=7200))
 GROUPS.append(Group('givesCheck', 'h_givesCheck', enforce='MoveGen_givesCheck', replace=('BitBoard_getDirection', 'BitBoard_firstSquare'), min_props=10, timeout=14400,
                     unwindset={'MoveGen_nextPiece': 9, 'MoveGen_nextPieceSafe': 9}, cases=('case', [('CASE_GC=%d' % pt,) for pt in range(6)]), tier='thorough'))
-GROUPS.append(Group('isLegal', 'h_isLegal', enforce='MoveGen_isLegal',
-                    replace=_ATT + ('MoveGen_inCheck', 'MoveGen_sqAttacked3', 'BitBoard_getDirection', 'BitBoard_firstSquare'), min_props=10, timeout=7200,
+GROUPS.append(Group('isLegal', 'h_isLegal', enforce='MoveGen_isLegal', tier='deep',
+                    replace=_ATT + ('MoveGen_inCheck', 'MoveGen_sqAttacked3', 'BitBoard_getDirection', 'BitBoard_firstSquare'), min_props=10, timeout=18000,
                     cases=('case', [('CASE_IC=%d' % ic, 'CASE_PT=%d' % pt) for ic in (0, 1) for pt in range(6)])))
 # groups that are part of the C01 claim (the others are built but did not close yet: run them with --only)
 CLAIMED = ['sqAttacked_w', 'sqAttacked_b', 'sqAttacked3', 'sqAttacked2', 'inCheck', 'addMovesByMask', 'addPawnDoubleMovesByMask', 'addPawnMovesByMask_w', 'addPawnMovesByMask_b',
@@ -876,6 +876,7 @@ for _sfx in ('_w', '_b'):
     CLAIMED += ['capturesAndChecks_%s%s' % (x, _sfx) for x in ('head', 'sliders', 'king', 'knights', 'pawns', 'tiled')]
     CLAIMED += ['checkEvasions_%s%s' % (x, _sfx) for x in ('head', 'pieces', 'pawns', 'tiled')]   # pieces: thorough tier (15 min each)
 CLAIMED += ['removeIllegal_head', 'removeIllegal_verdict_ic', 'removeIllegal_verdict_nic']   # verdicts: thorough tier (12 cases, 16-60 min each)
+CLAIMED += ['isLegal']   # deep tier: all 12 cases discharged once (7 min - 3.5 h each, 22 CPU hours; evidence_archive/C01-isLegal-deep.json); VERIF_DEEP=1 re-runs it
 CLAIMED += ['givesCheck']   # givesCheck: thorough tier only (6 cases, 10-36 min each)
 PROPERTIES = {'C01': CLAIMED}
 ASSUMPTIONS = {'C01': [
@@ -884,7 +885,7 @@ ASSUMPTIONS = {'C01': [
     'assumed contract: MoveList::addMove appends exactly its move (placement new into the int buffer, text pinned); A-MAXMOVES: the capacity of 256 moves is never exceeded',
     'position domain: bitboards consistent with the board (wf_bb), one king per side, no pawns on the first/last rank, castling rights imply king and rook on their squares, en-passant square as makeMove establishes it',
 ]}
-NOT_DECIDED = {'C01': ['isLegal (verdict == playing the move): contract written, complete 12-way case split; the two king-move cases are discharged (24 and 42 min), the other cases did not finish in 50 min each: not claimed',
+NOT_DECIDED = {'C01': ['isLegal (verdict == playing the move on the board, position restored): proved ONCE in a 4.5 h run (complete 12-way case split, every case discharged, 7 min to 3.5 h each); it is not re-run by the registered commands (deep tier, VERIF_DEEP=1), so a later change of isLegal is only noticed when that tier is run',
                        'removeIllegal: the per-move verdict of both loops is decided in the thorough tier (king-ray shortcut == playing the move; the play-the-move branch is replaced by its specification, its text is pinned); the compaction of the list (moveList[length++] = m) is pinned text only',
                        'pseudoLegalCapturesAndChecks: decided are "only pseudo-legal moves, none twice, every capture / en-passant capture / queen-or-knight promotion present"; that every CHECKING quiet move is present (direct and discovered checks) is NOT decided',
                        'sliding-attack magic tables, FEN text layer, MoveList capacity']}
